@@ -16,6 +16,7 @@ func runC18(c *Ctx) {
 	if c.Thorough() {
 		maxLines, depth = 3, 3
 	}
+	c18UnfilteredTypes(c)
 	c.Exhaustive = true
 	c.Rule = fmt.Sprintf("all policy files of <= %d lines over a 10-line universe (p and g rules, padded fields, a comment, a blank, a quoted field, a rule of the wrong arity which makes every load that keeps it fail), plus all files of <= 2 lines over a 6-line universe of what surrounds the fields (and a # inside a value) (blanks and a tab after the last field, a line of blanks only, an indented comment) x all call sequences (quick tier: single calls on every file, sequences of two on every fourth; thorough tier: single calls on the 3-line files, sequences of two on the shorter files and of three on every sixth of those; the top depth is %d) over {LoadFilteredPolicy, LoadIncrementalFilteredPolicy with 10 filters (per type, empty = wildcard, nil, longer than the rule, blank-padded values) and a value of the wrong type, LoadPolicy, SavePolicy, AddPolicy} on the real FilteredAdapter with real temp files: result, IsFiltered, listed rules, links, decisions and the file bytes after every call are compared with the Lean model; the same loads through SyncedEnforcer and through a DistributedEnforcer with a dispatcher must give what the plain enforcer gives (all sequences of <= 3 distinct loads out of 6); on the implementation: a filtered load lists exactly the full load's rules whose leading fields equal the filter's non-empty values, decisions equal those of a fresh enforcer given the subset, SavePolicy while filtered is refused and leaves the file bytes unchanged, SavePolicy never succeeds while the enforcer may hold a partial view (a filtered load, completed or failed, since the last successful full load); non-trivial = a sequence with a filtered load that kept some and dropped some rules; distinct = (file, sequence)", maxLines, depth)
 	lineUniverse := []string{"p, alice, data1, read", "p, bob, data2, write", "p,alice ,  data2,write", "g, alice, admin", "g, bob, admin",
